@@ -143,5 +143,11 @@ class Scope(object):
     def pop(self):
         return self._list.pop()
 
+    def __len__(self):
+        return len(self._list)
+
+    def truncate(self, depth):
+        del self._list[depth:]
+
 
 scope = Scope()
